@@ -10,7 +10,12 @@ import vlib
 
 
 class OrderedBag(list):
-    """a list that quacks like the sets the rebuilders use (union, membership by ==)"""
+    """a list that quacks like the sets the rebuilders use: union, and membership the way a set decides it
+    (same hash AND ==; RichSwitch.__eq__ compares indices only while its hash includes the name)"""
+
+    def __contains__(self, x):
+        hx = hash(x)
+        return any(hash(y) == hx and y == x for y in self)
 
     def union(self, *others):
         out = OrderedBag(self)
